@@ -214,7 +214,7 @@ impl Property for C03 {
         let mut cp = CfgParams::full();
         cp.force_fallback = false;
         let maxp = tier.pick(10, 40);
-        (world(dp, cp), vec(pieces(maxp), 1..=4), prop_oneof![1 => Just(0xffffu16), 2 => 0u16..1024])
+        (world(dp, cp), vec(pieces(maxp), 1..=4), prop_oneof![1 => Just(0xffffu16), 2 => 0u16..1024, 1 => (0u16..256).prop_map(|x| x * 4 + 1)])
             .prop_map(|((dic, cfg), texts, subset)| Case { dic, cfg, texts, subset })
             .boxed()
     }
@@ -270,6 +270,42 @@ impl Property for C03 {
             self.check_text(&mut rep, case, &dict, &text, ctx);
             if rep.failed() {
                 return rep;
+            }
+        }
+        // the same texts once more on ONE reused tokenizer and result list, with a rejected input
+        // (normalised form too long / input too long) in between: still no panic, and accepted
+        // analyses still partition the text (what a long-lived tokenizer object goes through)
+        if case.subset % 4 == 1 && case.texts.iter().map(|t| t.len()).sum::<usize>() < 200 {
+            use sudachi::analysis::stateful_tokenizer::StatefulTokenizer;
+            let mut seq: Vec<String> = Vec::new();
+            for (i, t) in case.texts.iter().enumerate() {
+                seq.push(render_pieces(&keys, t));
+                match (case.subset as usize + i) % 3 {
+                    0 => seq.push("ﷺ".repeat(2100)),
+                    1 => seq.push("x".repeat(MAX_INPUT + 1)),
+                    _ => {}
+                }
+            }
+            seq.extend(case.texts.iter().map(|t| render_pieces(&keys, t)));
+            let r = guarded(|| {
+                let mut tok = StatefulTokenizer::new(&dict, sudachi::analysis::Mode::C);
+                let mut ml = sudachi::prelude::MorphemeList::empty(&dict);
+                for (i, text) in seq.iter().enumerate() {
+                    tok.set_mode(mode_of(i as u8));
+                    tok.reset().push_str(text);
+                    if tok.do_tokenize().is_ok() && ml.collect_results(&mut tok).is_ok() {
+                        consume_all(&dict, &ml, false);
+                        if let Err((clause, detail)) = check_partition(text, &ml) {
+                            return Err((i, clause, detail));
+                        }
+                    }
+                }
+                Ok(())
+            });
+            match r {
+                Ok(Ok(())) => rep.class("reused tokenizer pass"),
+                Ok(Err((i, clause, detail))) => rep.fail(&format!("reused:{}", clause), format!("step {} of the reused-tokenizer pass, text {:?}: {}", i, crate::driver::truncate(&seq[i], 60), detail)),
+                Err(p) => rep.fail(&format!("reused-panic:{}", panic_site(&p)), format!("reused-tokenizer pass over {:?}: {}", seq.iter().map(|s| crate::driver::truncate(s, 20)).collect::<Vec<_>>(), p)),
             }
         }
         rep
